@@ -840,7 +840,8 @@ func (c *checker) checkTaskEvents(x *execRun, who string, k int, name string, in
 		if cnt[EmTaskErrorRecovered] > 0 && x.err != nil && errors.Is(x.err, x.fnErr(kind, id)) && !x.d.SharedErr {
 			c.add("C18", "task-outcome-events", "%s emitter %d: task %s emitted TaskErrorRecovered, yet the directive returned that task's error %v", who, k, name, x.err)
 		}
-		if cnt[EmTaskPanicRecovered] > 0 && x.err != nil {
+		if _, indistinct := x.panicVal(kind, id, 0).(runtimePanic); cnt[EmTaskPanicRecovered] > 0 && x.err != nil && !indistinct {
+			// (runtime-error panics of different functions are indistinguishable: no attribution then)
 			var pe *cff.PanicError
 			if errors.As(x.err, &pe) && panicEq(pe.Value, x.panicVal(kind, id, 0)) {
 				c.add("C18", "task-outcome-events", "%s emitter %d: task %s emitted TaskPanicRecovered, yet the directive returned that task's panic as its error", who, k, name)
